@@ -87,7 +87,10 @@ def run(rep, facts, tier):
     # does cmp delegate to partial_cmp?
     delegates = any(callee_of(t) == pcf.name for _, t in cmf.calls())
     # cmp may take what partial_cmp orders and add arms of its own for the types that have no order for sort but are keys all the same
-    ordered = (set(pcp) | set(pair_table(cmf) or set())) if delegates else (pair_table(cmf) or set())
+    # (its own arms may live in a private helper: look at cmp with helpers spliced in)
+    from .. import inline as _inl
+    cmv = _inl.View(fx)(cmf.name)
+    ordered = (set(pcp) | set(pair_table(cmv) or set()) | set(pair_table(cmf) or set())) if delegates else (pair_table(cmv) or pair_table(cmf) or set())
     # a variant without a payload has one value: Equal is its order
     cell = fx.adts.get('cell::Cell') or {}
     unit = {v['name'] for v in cell.get('variants', []) if not v.get('fields')}
@@ -104,7 +107,7 @@ def run(rep, facts, tier):
     # the order of each type is the one its `==` belongs to: only PartialOrd / Ord trait methods produce an Ordering here
     # (std contract: a == b iff partial_cmp(a, b) == Some(Equal)); f64::total_cmp, a hand-written compare or a key
     # function would separate or merge keys that equal? treats otherwise (0.0 and -0.0)
-    for f in (pcf, cmf):
+    for f in (pcf, cmv):
         odd = []
         for bb, t in f.calls():
             c = callee_of(t) or ''
@@ -127,10 +130,13 @@ def run(rep, facts, tier):
     const_equal = fb is not None and 'Ordering::Equal' in fb
     # ... in whatever form: a return of the constant Equal from cmp (the catch-all arm of a match on the two values) says the
     # same as unwrap_or(Equal)
-    for (bb_, i_, kind_, payload_) in cmf.defs().get(0, []):
-        if kind_ == 'assign' and payload_.get('k') == 'agg' and payload_.get('adt') == 'core::cmp::Ordering' and payload_.get('variant') == 'Equal':
-            const_equal = True
-            fb = fb or 'a match arm that returns Ordering::Equal'
+    for g_ in (cmf, cmv):
+        for bb_ in g_.reachable_blocks():
+            for st_ in g_.blocks[bb_]['stmts']:
+                rv_ = st_.get('rv') or {}
+                if st_['k'] == 'assign' and rv_.get('k') == 'agg' and rv_.get('adt') == 'core::cmp::Ordering' and rv_.get('variant') == 'Equal':
+                    const_equal = True
+                    fb = fb or 'a match arm that yields Ordering::Equal'
     rep.add('C12.R1', 'C12.R1:cmp-fallback-is-Equal', not const_equal,
             'cmp has no constant Equal fallback' if not const_equal else
             'Ord::cmp = partial_cmp().unwrap_or(Equal): any two values that partial_cmp does not order (different types, flags, nil, bit-strings, '
